@@ -1386,7 +1386,7 @@ func Render(asserts []*T) *Script {
 				body = "(" + opName[t.Op] + " " + strings.Join(args, " ") + ")"
 			}
 			n++
-			s = fmt.Sprintf("t%d", n)
+			s = fmt.Sprintf("t!%d", n)
 			fmt.Fprintf(&defs, "(define-fun %s () %s %s)\n", s, sortOf(t.W), body)
 			if t.Op == OUF {
 				app := UFApp{Fn: t.Name, Res: s, ResW: t.W}
